@@ -87,7 +87,7 @@ def build(lid, wspec):
 
 
 def lexicon_for(rules, stem, feats):
-    """rules: list of (pos, suffix, repl). feats: subset of 5 feature names."""
+    """rules: list of (pos, suffix, repl). feats: subset of the feature names."""
     ws = []
     for (pos, suf, repl) in rules:
         infl, cand = stem + suf, stem + repl
@@ -105,6 +105,12 @@ def lexicon_for(rules, stem, feats):
         if 'as-twin' in feats:
             ws.append(('s' if pos != 's' else 'a', cand, []))
             ws.append(('a' if pos not in 'as' else pos, 'twin' + stem, [infl]))
+    if 'unhandled-pos' in feats:
+        # words of a part of speech Morphy does not handle (adposition) with exactly the query strings as lemmas:
+        # found only when the lemmatizer proposes nothing and the search falls back to the query itself
+        for (pos, suf, repl) in rules:
+            ws.append(('p', stem + suf, []))
+            ws.append(('p', stem + repl, []))
     ws.append(('r', 'unrelatedly', []))
     # the same (pos, lemma) may arise twice: keep one entry each
     seen, out = set(), []
@@ -215,7 +221,7 @@ def check_uninit(case):
     return {'v': V, 'digs': digs, 'nt': len(digs), 'n': n}
 
 
-FEATS = ['cand', 'cand-other-pos', 'infl-lemma', 'infl-extra', 'as-twin']
+FEATS = ['cand', 'cand-other-pos', 'infl-lemma', 'infl-extra', 'as-twin', 'unhandled-pos']
 
 
 def space(tier, seed):
